@@ -143,6 +143,25 @@ def run(prop, tier=None, replay=None):
                              ("long-sum", (300,)), ("n-statements", (400,)), ("shared-label-do-action", (60,))):
             for n_ in sizes_:
                 inputs.append(("deep", effort.fam(fam_, n_), {"family": fam_, "n": n_}))
+        # calls of intrinsic procedures (generic and specific names) with every argument count 0..4, in every
+        # kind of scoping unit: the argument check is one of the few semantic checks of the parser
+        names = ["sin", "alog", "amax1", "iabs", "float", "max", "min0", "mod", "dble", "cmplx", "size", "present", "null", "selected_real_kind",
+                 "dprod", "isign", "reshape", "sum", "len_trim", "ichar", "idnint", "transfer", "bessel_jn", "atan2"]
+        wraps = [("sub", "subroutine s\n%s\nend subroutine s\n"), ("prog", "program p\n%s\nend program p\n"), ("main0", "%s\nend\n"),
+                 ("modsub", "module m\ncontains\nsubroutine s\n%s\nend subroutine s\nend module m\n"),
+                 ("fun", "function f(a)\n%s\nend function f\n"), ("decl", "subroutine s\nreal :: v = %s\nend subroutine s\n")]
+        forms = ["x = %s", "if (%s > 0) x = 1", "call t(%s)", "x = a(%s) + %s", "print *, %s"]
+        k = 0
+        for nm in names:
+            for na in range(5):
+                call = "%s(%s)" % (nm, ", ".join("abcd"[:na]))
+                k += 1
+                picks = range(len(wraps)) if tier != "quick" else [k % len(wraps), (k + 2) % len(wraps)]
+                for wi in picks:
+                    wn, w = wraps[wi]
+                    fi = (k + wi) % len(forms)
+                    body = call if wn == "decl" else forms[fi].replace("%s", call)
+                    inputs.append(("intrinsic-arity", w % body, {"name": nm, "args": na, "wrap": wn}))
         # invalid UTF-8 at different position classes of a file
         base = "program p\n  character(len=3) :: s\n  s = 'abc' ! comment\n  print *, s\nend program p\n".encode()
         positions = [0, 8, 10, 20, 38, 45, 50, 60, len(base) - 1, len(base)]
